@@ -38,6 +38,7 @@ QUAL = ['Quality', 'LinkQuality', 'ReactionRate', 'Concentration', 'BulkReaction
         'SourceMassInject', 'WaterAge']
 MASS = ['mg', 'ug', 'g', 'kg']
 CONTAINERS = ['float', 'int', 'list', 'ndarray', 'dict', 'dataframe']
+DICT_KEYS = ['2', '10', '1', 'TANK-A', 'J-7', 'b', 'a', 'Z9', 'k3', 'k12', 'k0', 'R', '33', '4', 'n_8', 'n_08']
 
 FT = 0.3048
 GAL = 3.785411784e-3
@@ -114,7 +115,8 @@ def _wrap(container, vals):
     if container == 'ndarray':
         return np.array(vals, dtype=float)
     if container == 'dict':
-        return {'k%d' % i: float(v) for i, v in enumerate(vals)}
+        # element names as they occur in models: inserted in an order that is not their sorted order
+        return {DICT_KEYS[i]: float(v) for i, v in enumerate(vals)}
     if container == 'dataframe':
         return pd.DataFrame({'a': [float(v) for v in vals], 'b': [2.0 * float(v) for v in vals]},
                             index=[10 * i for i in range(len(vals))])
@@ -140,7 +142,11 @@ def _flat(container, obj):
     if container == 'dict':
         if not isinstance(obj, dict):
             return None, 'dict became %s' % type(obj).__name__
-        return [float(v) for v in obj.values()], 'dict%s' % (list(obj.keys()),)
+        # values are looked up by key (the order of a dictionary carries no meaning, its key -> value relation does)
+        ks = [k for k in DICT_KEYS if k in obj]
+        if len(ks) != len(obj):
+            return None, 'dict came back with other keys %r' % (list(obj.keys()),)
+        return [float(obj[k]) for k in ks], 'dict%s' % (sorted(obj.keys()),)
     if container == 'dataframe':
         if not isinstance(obj, pd.DataFrame):
             return None, 'DataFrame became %s' % type(obj).__name__
